@@ -1,3 +1,4 @@
+import AdaptiveProofs.Lemmas.L2D
 import AdaptiveProofs.Lemmas.SeqInv
 import AdaptiveModel.DataSaver
 import AdaptiveModel.Avg
@@ -155,4 +156,80 @@ theorem avg_restore_bisimilar (sqrt : α → α) (atol rtol : Option α) (m : Na
   Avg.restore_bisimilar sqrt atol rtol m ops hp t
 end restore
 
+end C13
+
+
+/-! ### Learner2D (bookkeeping model `AdaptiveModel/L2D.lean`: `getData` / `setData` / `restoreFile` / `getState` / `setState`; the
+geometry is an oracle; proofs in `Lemmas/L2D.lean`, sections H and J).  `save`+`load` and `copy_from` are `restoreFile ∘ getData`
+(`_set_data(_get_data())` on a fresh learner); the pickle protocol is `setState ∘ getState` (`__setstate__` runs `__init__`,
+`_set_data`, then overwrites `_stack` with the pickled one; the pending set is not pickled).  Lock-step with the real class
+(`harness/l2d_drive.py`, ops `l2d save_load` / `l2d pickle`). -/
+namespace C13
+section l2d
+open L2D
+variable {V L : Type}
+
+/-- C13.l2d.a  File restore / `copy_from`: the restored learner holds the SAME `data` (keys, values, `OrderedDict` order) and
+the same `npoints`; nothing is pending; its stack is `cornerStack c data`: the corner points without a value, at `inf`
+(in corner order when the corners are pairwise distinct: second theorem; in general one entry per such corner: third). -/
+theorem l2d_file_roundtrip_data (c : Cfg L) (s : State V L) :
+    (restoreFile c (getData s)).data = s.data ∧ npoints (restoreFile c (getData s)) = npoints s ∧
+    (restoreFile c (getData s)).pending = [] ∧ (restoreFile c (getData s)).stack = cornerStack c s.data :=
+  L2D.l2d_file_roundtrip_data c s
+
+theorem l2d_restored_stack (c : Cfg L) (hnd : c.corners.Nodup) (d : List (Nat × V)) :
+    cornerStack c d = (c.corners.filter (fun p => !hasKey d p)).map (fun p => (p, c.inf)) :=
+  cornerStack_eq c hnd d
+
+theorem l2d_restored_stack_spec (c : Cfg L) (d : List (Nat × V)) :
+    (∀ p, p ∈ keys (cornerStack c d) ↔ p ∈ c.corners ∧ p ∉ keys d) ∧ (∀ e ∈ cornerStack c d, e.2 = c.inf) ∧
+    (keys (cornerStack c d)).Nodup :=
+  cornerStack_spec c d
+
+/-- C13.l2d.b  Pickle: same data, same stack, empty pending set; for a history that ends with no pending points the
+unpickled learner IS the original (equal states) … -/
+theorem l2d_pickle_roundtrip (c : Cfg L) (s : State V L) :
+    (setState c (getState s)).data = s.data ∧ (setState c (getState s)).stack = s.stack ∧
+    (setState c (getState s)).pending = [] ∧ npoints (setState c (getState s)) = npoints s ∧
+    (s.pending = [] → setState c (getState s) = s) :=
+  L2D.l2d_pickle_roundtrip c s
+
+/-- … so every later state and every later answer agree, for every continuation and every oracle. -/
+theorem l2d_pickle_same_future (c : Cfg L) (h : List (Op V L)) (hp : (run c (init c) h).pending = [])
+    (ops : List (Op V L)) :
+    run c (setState c (getState (run c (init c) h))) ops = run c (run c (init c) h) ops ∧
+    ∀ (cands : Oracle V L) n commit,
+      ask c cands (run c (setState c (getState (run c (init c) h))) ops) n commit =
+        ask c cands (run c (run c (init c) h) ops) n commit :=
+  L2D.l2d_pickle_same_future c _ hp ops
+
+/-- C13.l2d.c  File restore vs original, exactly: with nothing pending the restored learner is the original with its private
+suggestion stack replaced by the corner stack; the two are equal iff the original's stack is the corner stack.  They are NOT
+equal in general and later answers differ: `L2D.Ex.file_restore_drops_stack` (recorded finding "the suggestion stack is not
+carried by file restores"; reproduced on the real class, see notes). -/
+theorem l2d_file_restore_vs_original (c : Cfg L) (s : State V L) (hp : s.pending = []) :
+    restoreFile c (getData s) = { s with stack := cornerStack c s.data } :=
+  L2D.l2d_file_restore_vs_original c s hp
+
+theorem l2d_file_restore_exact_iff (c : Cfg L) (s : State V L) :
+    restoreFile c (getData s) = s ↔ s.pending = [] ∧ s.stack = cornerStack c s.data :=
+  restoreFile_eq_self_iff c s
+
+/-- for EVERY state a file restore is: forget the stack and the pending set, then `remove_unfinished` -/
+theorem l2d_file_restore_is_removeUnfinished (c : Cfg L) (s : State V L) :
+    restoreFile c (getData s) = removeUnfinished c { s with stack := [], pending := [] } :=
+  restoreFile_eq_removeUnfinished c s
+
+/-- positive: right after `remove_unfinished` on a learner whose stack was consumed the restore is exact … -/
+theorem l2d_file_restore_exact_after_removeUnfinished (c : Cfg L) (s : State V L) (h : s.stack = []) :
+    restoreFile c (getData (removeUnfinished c s)) = removeUnfinished c s :=
+  restoreFile_after_removeUnfinished c s h
+
+/-- … and so it is for every learner that has only been told results (corners inside the bounds) -/
+theorem l2d_file_restore_exact_dataOnly (c : Cfg L) (hcor : ∀ p ∈ c.corners, c.inB p = true) (ops : List (Op V L))
+    (hops : ∀ op ∈ ops, DataOnly op) :
+    restoreFile c (getData (run c (init c) ops)) = run c (init c) ops :=
+  restoreFile_dataOnly c hcor ops hops
+
+end l2d
 end C13
